@@ -31,6 +31,9 @@ def replay(run, P):
 def cnt(run, P):
     from rules import r_cnt
     r_cnt.run(run, P)
+def cntdeq(run, P):
+    from rules import r_cnt
+    r_cnt.run_dequeue(run, P)
 def node(run, P):
     from rules import r_ownnode
     r_ownnode.run(run, P)
